@@ -994,11 +994,23 @@ class GenJumps(Gen):
         self.uses_gs = True
         self.loop_id += 1
         n = "N%d%%" % self.loop_id
-        self.subs.append((lab, [self.trace("in " + lab), {"k": "callsub", "name": "GsExitLoop", "args": []}, self.trace("after GsExitLoop"), {"k": "return"}]))
+        if r.random() < 0.6:
+            routine = [self.trace("in " + lab), {"k": "callsub", "name": "GsExitLoop", "args": []}, self.trace("after GsExitLoop"), {"k": "return"}]
+        else:
+            routine = [self.trace("in " + lab), {"k": "return"}]       # a plain routine: RETURN must leave the loops around the GOSUB alone
+        self.subs.append((lab, routine))
         body = [self.trace("loop"), {"k": "gosub", "label": lab}, {"k": "print", "items": [("e", ("lit", "$", "back")), (";",), ("e", ("var", n))]}]
         hi = r.choice([2, 3])
-        return [{"k": "for", "var": n, "lo": ("lit", "%", 1), "hi": ("lit", "%", hi), "step": r.choice([None, ("lit", "%", 1)]), "body": body, "next_var": True},
-                {"k": "print", "items": [("e", ("lit", "$", "counter")), (";",), ("e", ("var", n))]}]
+        loop = {"k": "for", "var": n, "lo": ("lit", "%", 1), "hi": ("lit", "%", hi), "step": r.choice([None, ("lit", "%", 1)]), "body": body, "next_var": True}
+        out = [loop, {"k": "print", "items": [("e", ("lit", "$", "counter")), (";",), ("e", ("var", n))]}]
+        if r.random() < 0.5:
+            # the GOSUB sits two loops deep; the loops have different limits and steps
+            self.loop_id += 1
+            m = "N%d%%" % self.loop_id
+            outer = {"k": "for", "var": m, "lo": ("lit", "%", 10), "hi": ("lit", "%", 6), "step": ("lit", "%", -2), "next_var": r.random() < 0.5,
+                     "body": [loop, {"k": "print", "items": [("e", ("lit", "$", "outer")), (";",), ("e", ("var", m)), (";",), ("e", ("var", n))]}]}
+            out = [outer, {"k": "print", "items": [("e", ("lit", "$", "counters")), (";",), ("e", ("var", m)), (";",), ("e", ("var", n))]}]
+        return out
 
     def sub_gosub(self):
         """GOSUB / RETURN inside SUBs: they are local to the call."""
